@@ -1094,6 +1094,11 @@ impl State {
                 let idx = *i;
                 let val = self.pop_data()?;
                 let frame = self.top_frame()?;
+                // earlier locals whose declaration was skipped (untaken branch,
+                // zero-trip loop) keep their slot
+                while frame.locals.len() < idx {
+                    frame.locals.push_back_mut(Cell::Nil);
+                }
                 if idx < frame.locals.len() {
                     frame.locals[idx] = val;
                 } else {
